@@ -15,7 +15,8 @@ from mc.model import MIS, OTH, SEL, Schema, tabulate
 from mc.partition import partition_oracles
 
 ID = "C09"
-RULE = ("states = (multiset of <=N respondents with weights in {0,0.5,1,2}, hide subset, prune flags on "
+RULE = ("states = (multiset of <=N respondents with weights in {0,0.5,1,2} (largest spaces: {0,0.5,2} in the quick tier, "
+        "{0,2} from the second respondent on in the thorough tier), hide subset, prune flags on "
         "both dimensions, subtotal / hidden-subtotal option); non-trivial = pruning enabled and at least "
         "one vector empty and one non-empty; distinct = distinct (config, displayed order)")
 ASSUMPTIONS = ["'empty' is asserted only where the statement decides it: a positive unweighted cell count "
@@ -100,10 +101,16 @@ def spaces(tier):
         if tier == "quick" and name == "cat3_x_cat2":
             idx = [i for i, pf in enumerate(PROFILES[name]) if pf[1] != 1]
 
-        def level(k, idx=idx, ncf=len(CONFIGS[name])):
+        # thorough tier of the large spaces: from the second respondent on, weights from {0, 2} only
+        idx_deep = idx
+        if tier == "thorough" and name in ("mr_x_mr", "cat3_x_cat2", "catdate3_x_mr", "cat3_x_mr", "mr_x_cat3"):
+            idx_deep = [i for i, pf in enumerate(PROFILES[name]) if pf[1] in (0, 2)]
+
+        def level(k, idx=idx, idx_deep=idx_deep, ncf=len(CONFIGS[name])):
             def gen():
-                for ms in multisets(len(idx), k):
-                    real = tuple(idx[j] for j in ms)
+                use = idx if k < 2 else idx_deep
+                for ms in multisets(len(use), k):
+                    real = tuple(use[j] for j in ms)
                     for c in range(ncf):
                         yield (real, c)
             return gen
